@@ -44,17 +44,17 @@ theorem values_perm (l₁ l₂ : Labelled α) (hp : l₁.Perm l₂) (hk : (l₁.
 
 /-- two labelled axes (a table): permuting rows and, inside every row, columns -/
 theorem canonTable_perm (t₁ t₂ : Labelled (Labelled α)) (hk : (t₁.map (·.1)).Nodup)
-    (hrows : List.Forall₂ (fun a b => a.1 = b.1 ∧ a.2.Perm b.2 ∧ (a.2.map (·.1)).Nodup) t₁ t₂) :
+    (hrows : ∃ t, t₁.Perm t ∧ List.Forall₂ (fun a b => a.1 = b.1 ∧ a.2.Perm b.2 ∧ (a.2.map (·.1)).Nodup) t t₂) :
     canonTable t₁ = canonTable t₂ := by
-  have _ := hk
+  obtain ⟨t, hp, hf⟩ := hrows
   unfold canonTable
-  congr 1
-  induction hrows with
-  | nil => rfl
-  | cons hab _ ih =>
-    obtain ⟨h1, h2, h3⟩ := hab
-    rw [List.map_cons, List.map_cons, List.nodup_cons] at *
-    rw [ih hk.2 hk.2, h1, canon_perm _ _ h2 h3]
+  have hrow : (t.map fun r => (r.1, canon r.2)) = t₂.map fun r => (r.1, canon r.2) :=
+    mapRows_eq_of_forall₂ canon (fun a b => a.Perm b ∧ (a.map (·.1)).Nodup)
+      (fun a b hab => canon_perm a b hab.1 hab.2) t t₂ hf
+  rw [← hrow]
+  refine canon_perm _ _ (hp.map _) ?_
+  rw [map_keys_mapRows]
+  exact hk
 
 /-- label-based widening (`_thin_to_wide`) ignores the order of the entries -/
 theorem widen_perm (n : Nat) (l₁ l₂ : Labelled Rat) (hp : l₁.Perm l₂) (hk : (l₁.map (·.1)).Nodup) :
